@@ -222,10 +222,16 @@ impl MockModule {
     pub fn on_destroyed(e: &Env, from: Address, amount: i128, token: Address) {
         clog(e, HookCall { kind: 2, a: from.clone(), b: from, amount, token });
     }
-    pub fn can_transfer(e: &Env, _from: Address, _to: Address, _amount: i128, _token: Address) -> bool {
+    pub fn can_transfer(e: &Env, from: Address, to: Address, amount: i128, token: Address) -> bool {
+        qlog(e, HookCall { kind: 3, a: from, b: to, amount, token });
         !e.storage().persistent().get(&CKey::DenyTransfer).unwrap_or(false)
     }
-    pub fn can_create(e: &Env, _to: Address, _amount: i128, _token: Address) -> bool {
+    pub fn can_create(e: &Env, to: Address, amount: i128, token: Address) -> bool {
+        qlog(e, HookCall { kind: 4, a: to.clone(), b: to, amount, token });
         !e.storage().persistent().get(&CKey::DenyCreate).unwrap_or(false)
+    }
+    /// the `can_*` questions this module was asked inside calls that succeeded
+    pub fn questions(e: &Env) -> Vec<HookCall> {
+        e.storage().persistent().get(&CKey::Questions).unwrap_or(Vec::new(e))
     }
 }
